@@ -41,10 +41,17 @@ type CallSpec struct { // fact: inside function Func (of Dir), the list of calle
 	Callees []string `json:"callees"`
 	Lean    string   `json:"lean"`
 }
+type LitSpec struct { // fact: the literals and operators of a function body, in prefix (AST pre-order) order
+	Dir  string `json:"dir"`
+	Root string `json:"root"`
+	Func string `json:"func"`
+	Lean string `json:"lean"`
+}
 type Spec struct {
 	Consts []ConstSpec `json:"consts"`
 	Funcs  []FuncSpec  `json:"funcs"`
 	Calls  []CallSpec  `json:"calls"`
+	Lits   []LitSpec   `json:"lits"`
 }
 
 var roots = map[string]string{}
@@ -83,7 +90,21 @@ func loadPkg(root, dir string) *pkg {
 		p.files = append(p.files, f)
 		for _, d := range f.Decls {
 			gd, ok := d.(*ast.GenDecl)
-			if !ok || gd.Tok != token.CONST {
+			if !ok || (gd.Tok != token.CONST && gd.Tok != token.VAR) {
+				continue
+			}
+			if gd.Tok == token.VAR {
+				// package-level `var x = <constant expression>`: recorded like a constant (evaluated on demand)
+				for _, s := range gd.Specs {
+					vs := s.(*ast.ValueSpec)
+					for j, nm := range vs.Names {
+						if j < len(vs.Values) {
+							if _, dup := p.consts[nm.Name]; !dup {
+								p.consts[nm.Name] = vs.Values[j]
+							}
+						}
+					}
+				}
 				continue
 			}
 			var last []ast.Expr
@@ -369,6 +390,37 @@ func genSection(section string, spec Spec, out string, d *strings.Builder) {
 			q = append(q, leanStr(f))
 		}
 		fmt.Fprintf(&c, "/-- calls in %s/%s among %v, in source order -/\ndef %s : List String := [%s]\n", cs.Dir, cs.Func, cs.Callees, cs.Lean, strings.Join(q, ", "))
+	}
+	for _, ls := range spec.Lits {
+		p := loadPkg(ls.Root, ls.Dir)
+		fd := findFunc(p, ls.Func)
+		var toks []string
+		if fd != nil && fd.Body != nil {
+			ast.Inspect(fd.Body, func(n ast.Node) bool {
+				switch x := n.(type) {
+				case *ast.BasicLit:
+					toks = append(toks, x.Value)
+				case *ast.BinaryExpr:
+					toks = append(toks, x.Op.String())
+				case *ast.UnaryExpr:
+					toks = append(toks, "u"+x.Op.String())
+				case *ast.IncDecStmt:
+					toks = append(toks, x.Tok.String())
+				case *ast.AssignStmt:
+					if x.Tok != token.ASSIGN && x.Tok != token.DEFINE {
+						toks = append(toks, x.Tok.String())
+					}
+				}
+				return true
+			})
+		} else {
+			toks = []string{"<function missing>"}
+		}
+		q := []string{}
+		for _, t := range toks {
+			q = append(q, leanStr(t))
+		}
+		fmt.Fprintf(&c, "/-- literals and operators of %s/%s in AST pre-order -/\ndef %s : List String := [%s]\n", ls.Dir, ls.Func, ls.Lean, strings.Join(q, ", "))
 	}
 	c.WriteString("\nend Ssv.Gen\n")
 	writeIfChanged(filepath.Join(out, camel(section)+".lean"), c.String())
